@@ -502,3 +502,33 @@ Definition run_blocks_with (step : blk -> st -> prog) (bs : list blk) (s : st) :
 (* hypothesis of the linking theorems: a parameter matrix has n rows of D entries (what __init__ allocates) *)
 Definition shape2 (M : list (list Qc)) (n D : nat) : Prop :=
   length M = n /\ forall i, (i < n)%nat -> length (rnth M i) = D.
+
+(* ---- the observation store of the object, for the links of _update / encode_obs: the four Python lists and the three
+   defaultdict(list) index dicts (insertion-ordered association lists; a missing key reads as the empty list) *)
+Record pyobs := { o_y : list Qc; o_cl : list Z; o_dd1 : list Z; o_dd2 : list Z;
+                  o_cidx : list (Z * list nat); o_1idx : list (Z * list nat); o_2idx : list (Z * list nat) }.
+Definition set_o_y o x := {| o_y := x; o_cl := o_cl o; o_dd1 := o_dd1 o; o_dd2 := o_dd2 o; o_cidx := o_cidx o; o_1idx := o_1idx o; o_2idx := o_2idx o |}.
+Definition set_o_cl o x := {| o_y := o_y o; o_cl := x; o_dd1 := o_dd1 o; o_dd2 := o_dd2 o; o_cidx := o_cidx o; o_1idx := o_1idx o; o_2idx := o_2idx o |}.
+Definition set_o_dd1 o x := {| o_y := o_y o; o_cl := o_cl o; o_dd1 := x; o_dd2 := o_dd2 o; o_cidx := o_cidx o; o_1idx := o_1idx o; o_2idx := o_2idx o |}.
+Definition set_o_dd2 o x := {| o_y := o_y o; o_cl := o_cl o; o_dd1 := o_dd1 o; o_dd2 := x; o_cidx := o_cidx o; o_1idx := o_1idx o; o_2idx := o_2idx o |}.
+Definition set_o_cidx o x := {| o_y := o_y o; o_cl := o_cl o; o_dd1 := o_dd1 o; o_dd2 := o_dd2 o; o_cidx := x; o_1idx := o_1idx o; o_2idx := o_2idx o |}.
+Definition set_o_1idx o x := {| o_y := o_y o; o_cl := o_cl o; o_dd1 := o_dd1 o; o_dd2 := o_dd2 o; o_cidx := o_cidx o; o_1idx := x; o_2idx := o_2idx o |}.
+Definition set_o_2idx o x := {| o_y := o_y o; o_cl := o_cl o; o_dd1 := o_dd1 o; o_dd2 := o_dd2 o; o_cidx := o_cidx o; o_1idx := o_1idx o; o_2idx := x |}.
+(* dct[k] on a defaultdict(list) (read), dct[k].append(n) *)
+Fixpoint dl_get (dct : list (Z * list nat)) (k : Z) : list nat :=
+  match dct with [] => [] | (k', l) :: r => if (k' =? k)%Z then l else dl_get r k end.
+Fixpoint dl_append (dct : list (Z * list nat)) (k : Z) (n : nat) : list (Z * list nat) :=
+  match dct with
+  | [] => [(k, [n])]
+  | (k', l) :: r => if (k' =? k)%Z then (k', l ++ [n]) :: r else (k', l) :: dl_append r k n
+  end.
+(* the object's observation store represents the model's data: the lists agree and every index dict lists, for every key,
+   the observation numbers with that key in insertion order - what the block methods' index primitive reads *)
+Definition obs_rep (o : pyobs) (d : data) : Prop :=
+  o_y o = d_y d /\ o_cl o = d_cl d /\ o_dd1 o = d_dd1 d /\ o_dd2 o = d_dd2 d /\
+  (forall k, dl_get (o_cidx o) k = positions k (d_cl d)) /\
+  (forall k, dl_get (o_1idx o) k = positions k (d_dd1 d)) /\ (forall k, dl_get (o_2idx o) k = positions k (d_dd2 d)).
+Definition data_snoc (d : data) (y : Qc) (cl dd1 dd2 : Z) : data :=
+  {| d_y := d_y d ++ [y]; d_cl := d_cl d ++ [cl]; d_dd1 := d_dd1 d ++ [dd1]; d_dd2 := d_dd2 d ++ [dd2] |}.
+Definition obs_empty : pyobs := {| o_y := []; o_cl := []; o_dd1 := []; o_dd2 := []; o_cidx := []; o_1idx := []; o_2idx := [] |}.
+Definition data_empty : data := {| d_y := []; d_cl := []; d_dd1 := []; d_dd2 := [] |}.
